@@ -45,16 +45,19 @@ GEN_WRAP = ["Iterator[{}]", "Generator[{}, None, None]", "AsyncIterator[{}]", "t
 def gen_fixture(s, indent="", in_class=False, name=None, deps=None):
     rng = s.rng
     k = s.k()
-    name = name or (f"fx{k}" if rng.random() > 0.06 else f"test_fx{k}")
+    name = name or (f"fx{k}" if rng.random() > 0.1 else f"test_fx{k}")
     fn = name
     deco_kind = rng.choice(["pytest.fixture", "pytest.fixture()", "fixture", "fixture()", "pytest_asyncio.fixture", "args"])
+    broad = name.startswith("test_") and rng.random() < 0.6      # a fixture named like a test, with a broad scope
+    if broad:
+        deco_kind = "args"
     args = []
     scope = None
     autouse = False
     if deco_kind == "args":
         base = rng.choice(["pytest.fixture", "fixture", "pytest_asyncio.fixture"])
-        if rng.random() < 0.5:
-            scope = rng.choice(["function", "class", "module", "package", "session"])
+        if broad or rng.random() < 0.5:
+            scope = rng.choice(["module", "package", "session"]) if broad else rng.choice(["function", "class", "module", "package", "session"])
             args.append(f'scope="{scope}"' if rng.random() < 0.7 else f"scope='{scope}'")
         if rng.random() < 0.3:
             autouse = rng.random() < 0.7
